@@ -165,7 +165,7 @@ def op_lines(rng, quick):
                     continue
                 lines.append("%s i:%d i:%d" % (op, a, b))
     # 2. all kind pairs, a few value combinations each
-    per_pair = 1 if quick else 4
+    per_pair = 1 if quick else 8
     for op in BIN_OPS:
         for ka in KINDS:
             for kb in KINDS:
@@ -373,7 +373,7 @@ class ProgMonitor:
         if f.get("sentinel") != "1":
             bad.append(("prog-sentinel", "the sentinel script did not compile and run after the program"))
         ends = [e for e in f.get("ends", "").split(",") if e]
-        if any(e != "0" for e in ends):
+        if any(e != "0" and not e.startswith("k") for e in ends):
             bad.append(("prog-stack-at-end", "a thread ended with a non-empty operand stack: %s" % ends))
         for e in log:
             if e.startswith("X:") and not e.startswith("X:A:"):
@@ -437,7 +437,7 @@ def program_level(ctx, info):
         progs.append(("corpus:" + os.path.basename(p), {"src": o["src"], "threads": o.get("threads", [])}))
     for name, body in untypedgen.TARGETED:
         progs.append(("targeted:" + name, untypedgen.targeted_program(name, body)))
-    nrand = 250 if quick else 9000
+    nrand = 250 if quick else 45000
     for i in range(nrand):
         progs.append(("random:%d" % i, gen.program()))
     ctx.stats["programs"] = len(progs)
